@@ -140,6 +140,21 @@ Definition mm_rose (K : nat) (roots : list tree) (anc : option N) : option (N * 
       end
   end.
 
+(* The repaired handling of missing samples (proposed fix of finding F2): a sample whose
+   genotype is missing goes through the Hartigan step like a non-sample node.  On rose
+   trees: relabel every Missing node NotSample. *)
+Fixpoint demote (t : tree) : tree :=
+  match t with
+  | Node u o ch => Node u (match o with Missing => NotSample | _ => o end) (map demote ch)
+  end.
+
+Definition mm_rose_fixed (K : nat) (roots : list tree) (anc : option N) : option (N * list trans) :=
+  mm_rose K (map demote roots) anc.
+
+(* the variant the code under test has (fact re-extracted from trees.c on every run) *)
+Definition mm_model (K : nat) (roots : list tree) (anc : option N) : option (N * list trans) :=
+  if c20_missing_through_hartigan then mm_rose_fixed K roots anc else mm_rose K roots anc.
+
 (* ------------------------------------------------------------------------- *)
 (* L1: the explicit stack over rose trees (7319-7340)                          *)
 (* ------------------------------------------------------------------------- *)
@@ -201,18 +216,20 @@ Definition ERR_BAD_ANCESTRAL_STATE : Z := 3.
 Definition ERR_NONTERMINATION : Z := 99.   (* get_smallest_set_bit(0) *)
 
 (* 7252-7266: returns (optimal_set, num_alleles (max genotype), non_missing) *)
-Fixpoint init_sets (samples genotypes : list Z) (os : list N) (num_alleles : Z) (non_missing : Z)
+Fixpoint init_sets (fx : bool) (samples genotypes : list Z) (os : list N) (num_alleles : Z) (non_missing : Z)
   : res (list N * Z * Z) :=
   match samples, genotypes with
   | u :: samples', g :: genotypes' =>
       if (g >=? c20_hartigan_max_alleles) || (g <? c20_tsk_missing_data) then Err ERR_BAD_GENOTYPE else
       if g =? c20_tsk_missing_data then
-        do os' <- set os u UINT64_MAX;
-        init_sets samples' genotypes' os' num_alleles non_missing
+        (* fx = false, the pinned code: "All bits set"; fx = true, the repaired code:
+           optimal_set[u] stays 0 *)
+        do os' <- (if fx then (do _ <- get os u; Ok os) else set os u UINT64_MAX);
+        init_sets fx samples' genotypes' os' num_alleles non_missing
       else
         do cur <- get os u;
         do os' <- set os u (set_bit cur (Z.to_N g));
-        init_sets samples' genotypes' os' (Z.max g num_alleles) (non_missing + 1)
+        init_sets fx samples' genotypes' os' (Z.max g num_alleles) (non_missing + 1)
   | [], _ => Ok (os, num_alleles, non_missing)      (* for (j = 0; j < num_samples; j++) *)
   | _ :: _, [] => OOB                                (* genotypes shorter than num_samples: excluded by the caller *)
   end.
@@ -254,7 +271,7 @@ Definition postorder_from_virtual_root (ta : tree_arrays) : res (list Z) :=
   Ok (nodes ++ [N]).
 
 (* 7289-7309 *)
-Fixpoint hartigan_loop (ta : tree_arrays) (K : nat) (nodes : list Z) (os : list N) : res (list N) :=
+Fixpoint hartigan_loop (fx : bool) (ta : tree_arrays) (K : nat) (nodes : list Z) (os : list N) : res (list N) :=
   match nodes with
   | [] => Ok os
   | u :: nodes' =>
@@ -264,11 +281,11 @@ Fixpoint hartigan_loop (ta : tree_arrays) (K : nat) (nodes : list Z) (os : list 
       do sets <- fold_right (fun v acc => do l <- acc; do s <- get os v; Ok (s :: l)) (Ok []) cs;
       do is_sample <- (if u =? N then Ok false else
                        do f <- get (ta_flags ta) u; Ok (Z.odd (f / c20_tsk_node_is_sample)));
-      if negb is_sample then
-        do cur <- get os u;
+      do cur <- get os u;
+      if negb is_sample || (fx && N.eqb cur 0) then
         do os' <- set os u (N.lor cur (hartigan_set K sets));
-        hartigan_loop ta K nodes' os'
-      else hartigan_loop ta K nodes' os
+        hartigan_loop fx ta K nodes' os'
+      else hartigan_loop fx ta K nodes' os
   end.
 
 (* 7319-7340; stack elements (node, transition_parent, state), head = top *)
@@ -298,10 +315,10 @@ Fixpoint preorder_loop (fuel : nat) (ta : tree_arrays) (os : list N) (stack : li
 (* tsk_tree_map_mutations; [anc] = Some a iff TSK_MM_FIXED_ANCESTRAL_STATE.
    Precondition of the C interface (established by Tree_map_mutations 12594-12599):
    length genotypes = num_samples. *)
-Definition c_map_mutations (ta : tree_arrays) (genotypes : list Z) (anc : option Z)
+Definition c_map_mutations_gen (fx : bool) (ta : tree_arrays) (genotypes : list Z) (anc : option Z)
   : res (Z * list trans) :=
   let N := zlen (ta_flags ta) in
-  do '(os, na, non_missing) <- init_sets (ta_samples ta) genotypes (repeat 0%N (S (length (ta_flags ta)))) 0 0;
+  do '(os, na, non_missing) <- init_sets fx (ta_samples ta) genotypes (repeat 0%N (S (length (ta_flags ta)))) 0 0;
   if non_missing =? 0 then Err ERR_GENOTYPES_ALL_MISSING else
   let na := na + 1 in
   do na <- match anc with
@@ -310,7 +327,7 @@ Definition c_map_mutations (ta : tree_arrays) (genotypes : list Z) (anc : option
                        else Ok (if a >=? na then a + 1 else na)
            end;
   do nodes <- postorder_from_virtual_root ta;
-  do os <- hartigan_loop ta (Z.to_nat na) nodes os;
+  do os <- hartigan_loop fx ta (Z.to_nat na) nodes os;
   do '(a, os) <- match anc with
                  | None => do Sv <- get os N;
                            match get_smallest_set_bit Sv with
@@ -321,6 +338,10 @@ Definition c_map_mutations (ta : tree_arrays) (genotypes : list Z) (anc : option
                  end;
   do tr <- preorder_loop (S (length (ta_left_child ta))) ta os [(N, tsk_null, Z.to_N a)] 0 [];
   Ok (a, tr).
+
+(* the variant the code under test has: the fact is re-extracted from trees.c on every run
+   (translator/facts_c20.py; false on the pinned commit, true once F2 is repaired) *)
+Definition c_map_mutations := c_map_mutations_gen c20_missing_through_hartigan.
 
 (* ------------------------------------------------------------------------- *)
 (* The rose tree the arrays represent                                          *)
@@ -375,7 +396,7 @@ Definition c_map_mutations_rose (ta : tree_arrays) (genotypes : list Z) (anc : o
           | None => Ok tt
           end;
   do roots <- rose_of_arrays ta genotypes;
-  match mm_rose (Z.to_nat (num_alleles_of (firstn (length (ta_samples ta)) genotypes) anc)) roots
+  match mm_model (Z.to_nat (num_alleles_of (firstn (length (ta_samples ta)) genotypes) anc)) roots
                 (option_map Z.to_N anc) with
   | None => Err ERR_NONTERMINATION
   | Some (a, tr) => Ok (Z.of_N a, tr)
